@@ -276,6 +276,9 @@ package stack
 //@   at-return [unterminatedTailHandedBackNotForwarded C10] opts != nil && s != nil && wlen(prefix) > old(wlen(prefix)) ==> wdata(prefix)[wlen(prefix) - 1] == 10
 //@   at-return [forwardedExactlyWhatTheScannerDeclined C02 C07] opts != nil && s != nil && werrs(prefix) == old(werrs(prefix)) ==> wlen(prefix) - old(wlen(prefix)) == declined
 //@   assert after-call nameArguments#1: [namingOnlyWhenAsked C15] opts.NameArguments
+//@   assert after-call nameArguments#1: [namesTheScannedGoroutines C15] sameslice(arg0, s.Goroutines)
+//@   assert after-call guessPaths#1: [guessesPathsOfTheScannedSnapshot C18] arg0 == s.Snapshot
+//@   assert after-call augment#1: [augmentsTheScannedSnapshot C19] arg0 == s.Snapshot
 //@   assert after-call guessPaths#1: [pathGuessingOnlyWhenAsked C18] opts.GuessPaths
 //@   assert after-call augment#1: [augmentOnlyWhenAsked C19] opts.AnalyzeSources
 //@   requires in != nil && prefix != nil
